@@ -1,4 +1,5 @@
 import Abverif.Model.Ws
+import Abverif.Model.WsSpec
 namespace Abverif.Drv.Ws
 open Abverif Abverif.Ws
 
@@ -88,12 +89,28 @@ def runOps (s : S) : List Op → List String
     let outs := (s'.log.drop s.log.length).map showOut
     (String.intercalate "," outs ++ "@" ++ stStr s'.st) :: runOps s' ops
 
+def showEv : WsSpec.Ev → String
+  | .message p b c => s!"m:{Hex.render p}:{boolStr b}:{boolStr c}"
+  | .ping p => s!"pi:{Hex.render p}"
+  | .pong p => s!"po:{Hex.render p}"
+  | .close code r =>
+    let cs := match code with | some n => toString n | none => "n"
+    let rs := match r with | some x => Hex.render x | none => "n"
+    s!"cl:{cs}:{rs}"
+
+def showVerdict : WsSpec.Verdict → String
+  | .ok => "ok" | .closedByPeer => "peer" | .fail c => s!"fail:{c}"
+
 def handle : List String → Option String
   | "ws.run" :: cfg :: start :: ops => do
       let c ← parseCfg cfg
       let s0 ← (if start = "open" then some (Ws.start c) else if start = "connecting" then some (startConnecting c) else none)
       let ops ← ops.mapM parseOp
       pure (String.intercalate "|" (runOps s0 ops))
+  | ["ws.judge", cfg, h] => do
+      let c ← parseCfg cfg
+      let (evs, v, rest) := WsSpec.judge (WsSpec.Ctx.ofCfg c) (← Hex.decode h)
+      pure (String.intercalate "," (evs.map showEv) ++ ";" ++ showVerdict v ++ ";" ++ toString rest)
   | ["ws.utf8", h] => do pure (boolStr (utf8Valid (← Hex.decode h)))
   | ["ws.trunc", h, n] => do pure (Hex.render (encodeTruncate (← Hex.decode h) (← n.toNat?)))
   | _ => none
